@@ -213,7 +213,7 @@ def run_case(ctx, rng, index, casedir):
                 res.append((label, read_text(out) if o.ok else f"<{o.brief()}>"))
             all_equal(res, viol, "phased records", sub)
     elif sub == "sort":
-        w = SC.build(rng, casedir, index, nrec=nrec, mode="plain")
+        w = SC.build(rng, casedir, index, nrec=nrec, mode="plain", text_variants=False)
         w.lines = text_variant(w.lines, rng, sit)
         cfgs = write_configs(casedir, w.lines, lambda p: w.g.write(p, bo_no=w.tags), rng, sit)
         res, idxres = [], []
